@@ -38,7 +38,7 @@ Proof.
   unfold record_mmap, copy_to_buffer. destruct (_ && _); [|repeat split]. destruct (give b (ws s)); repeat split.
 Qed.
 Definition is_rec_label (l : label) : bool :=
-  match l with P_start _ | P_emit _ _ _ | P_addlost _ _ | P_finish _ => false | _ => true end.
+  match l with P_start _ | P_emit _ _ _ _ | P_addlost _ _ | P_finish _ => false | _ => true end.
 Lemma rec_step_pfields c s l s' : is_rec_label l = true -> step c s l = Some s' ->
   plog s' = plog s /\ losts s' = losts s /\ curr s' = curr s /\ nbuf s' = nbuf s /\ pdone s' = pdone s.
 Proof.
@@ -162,7 +162,7 @@ Proof.
             * apply (LInv_same s0); sp; rewrite ?updt_other by assumption; try reflexivity. apply L0. assumption. }
       assert (LWs : LW s t) by (destruct (L t) as [A B _ _ _]; split; assumption).
       destruct (curr s t) as [i|] eqn:Hc.
-      * destruct (size s (t, i) + length r <=? maxsize c); injection H as <-.
+      * destruct (size s (t, i) + (length r - pad) <=? maxsize c); injection H as <-.
         -- destruct (append_rec_fields s t i r) as (_ & A2 & _ & _ & _ & A6 & A7 & _ & _ & _ & _ & _ & _ & _ & A15 & A16).
            cbv zeta in *. destruct (Nat.eq_dec t' t) as [->|Hne].
            ++ destruct (L t) as [A B C D E]. pose proof (C i Hc) as L0.
@@ -237,12 +237,12 @@ Qed.
 (* a record is dropped only by a P_emit whose allocation was refused while every buffer of the ring was
    still RECORDING; it is dropped whole and nothing else happens to the thread's output in that step *)
 Theorem drop_only_on_alloc_failure c s l s' t : step c s l = Some s' -> dropped s' t <> dropped s t ->
-  exists r, l = P_emit t r false /\ find_free s t = None /\
+  exists r pad, l = P_emit t r pad false /\ find_free s t = None /\
             dropped s' t = dropped s t ++ [r] /\ emitted s' t = emitted s t.
 Proof.
   intros H Hd. destruct (is_rec_label l) eqn:Hl.
   { destruct (rec_step_pfields c s l s' Hl H) as (F1 & _). exfalso. apply Hd. unfold dropped. rewrite F1. reflexivity. }
-  destruct l as [t0|t0 r ok|t0 n|t0| | | | | | | | |]; try discriminate; cbn [step] in H.
+  destruct l as [t0|t0 r pad ok|t0 n|t0| | | | | | | | |]; try discriminate; cbn [step] in H.
   - exfalso. apply Hd. unfold p_start in H. destruct (_ && _); [|discriminate]. injection H as <-. reflexivity.
   - unfold p_emit in H. destruct (p_live s t0) eqn:Lv; [|discriminate].
     apply p_live_spec in Lv. destruct Lv as (Hn & Hdn & Es).
@@ -267,12 +267,12 @@ Proof.
           destruct (Nat.eqb_spec t t0) as [->|Hne]; [|exfalso; apply Hd0; reflexivity].
           repeat split; auto; [rewrite dropped_of_app; reflexivity|rewrite emitted_of_app; cbn; apply app_nil_r]. }
     destruct (curr s t0) as [i|] eqn:Hc.
-    + destruct (size s (t0, i) + length r <=? maxsize c); injection H as <-.
+    + destruct (size s (t0, i) + (length r - pad) <=? maxsize c); injection H as <-.
       * exfalso. apply Hd. destruct (append_rec_fields s t0 i r) as (_ & A2 & _). cbv zeta in A2. unfold dropped. rewrite A2.
         unfold updt. destruct (Nat.eqb_spec t t0) as [->|]; [|reflexivity]. rewrite dropped_of_app. cbn. apply app_nil_r.
       * match type of Hd with dropped (switch ?s0 _ _ _) _ <> _ =>
-          destruct (Hsw s0 eq_refl eq_refl (find_free_ext s0 s t0 eq_refl eq_refl) Hd) as (-> & -> & F & D1 & E1) end. exists r. auto.
-    + injection H as <-. destruct (Hsw s eq_refl eq_refl eq_refl Hd) as (-> & -> & F & D1 & E1). exists r. auto.
+          destruct (Hsw s0 eq_refl eq_refl (find_free_ext s0 s t0 eq_refl eq_refl) Hd) as (-> & -> & F & D1 & E1) end. exists r, pad. auto.
+    + injection H as <-. destruct (Hsw s eq_refl eq_refl eq_refl Hd) as (-> & -> & F & D1 & E1). exists r, pad. auto.
   - exfalso. apply Hd. unfold p_addlost in H. destruct (p_live s t0); [|discriminate]. destruct (curr s t0); [discriminate|].
     injection H as <-. reflexivity.
   - exfalso. apply Hd. unfold p_finish in H. destruct (p_live s t0); [|discriminate]. injection H as <-.
@@ -284,7 +284,7 @@ Qed.
    is sent: the recorder finishes with shmem_lost_count = 0 although records were dropped *)
 Definition r16 (k : N) : list N := enc_rec k UFTRACE_ENTRY 0 7.
 Definition tail_loss_trace : list label :=
-  [P_start 0; P_emit 0 (r16 1) true; P_emit 0 (r16 2) true; P_emit 0 (r16 3) false; P_finish 0;
+  [P_start 0; P_emit 0 (r16 1) 0 true; P_emit 0 (r16 2) 0 true; P_emit 0 (r16 3) 0 false; P_finish 0;
    M_msg; M_msg; M_msg; M_msg; W_pick 0; W_write 0; W_release 0; W_write 0; W_release 0; W_splice 0;
    M_stop; M_join].
 Lemma tail_loss_unreported_refuted :
@@ -301,14 +301,14 @@ Qed.
    busy writer; the run ends finished with both files exact *)
 Definition nv_trace : list label :=
   [P_start 0; P_start 1;
-   P_emit 0 (r16 1) true; P_emit 0 (r16 2) true; P_emit 1 (r16 11) true; P_emit 0 (r16 3) true;   (* t0: buf0 full -> buf1 *)
+   P_emit 0 (r16 1) 0 true; P_emit 0 (r16 2) 0 true; P_emit 1 (r16 11) 0 true; P_emit 0 (r16 3) 0 true;   (* t0: buf0 full -> buf1 *)
    M_msg; M_msg; M_msg; M_msg;                               (* START 0.0, START 1.0, END 0.0 -> bwl, START 0.1 *)
    W_pick 0; W_write 0;                                      (* writer 0 works for thread 0, file written, not released *)
-   P_emit 0 (r16 4) true; P_emit 0 (r16 5) false;            (* buf1 full, buf0 still RECORDING, allocation refused: drop *)
+   P_emit 0 (r16 4) 0 true; P_emit 0 (r16 5) 0 false;            (* buf1 full, buf0 still RECORDING, allocation refused: drop *)
    M_msg;                                                    (* END 0.1 goes directly to writer 0 *)
    W_release 0;                                              (* buf0 released *)
-   P_emit 0 (r16 6) true;                                    (* reuse of buf0: LOST marker + record *)
-   P_emit 1 (r16 12) true; P_emit 1 (r16 13) true;
+   P_emit 0 (r16 6) 0 true;                                    (* reuse of buf0: LOST marker + record *)
+   P_emit 1 (r16 12) 0 true; P_emit 1 (r16 13) 0 true;
    W_splice 0; W_write 0; W_release 0; W_splice 0;
    M_msg; M_msg; M_msg; M_msg;                               (* START 0.0, LOST, END 1.0, START 1.1 *)
    W_pick 1; W_write 1; W_release 1; W_splice 1;
